@@ -137,6 +137,30 @@ def rule_accessors(rep, pdb):
                 ok = lo == num(0) and (hi in (mn1, mn2, mn3, mn4) or isminc)
                 det = "i in %s..%s" % (show(lo, ctx), show(hi, ctx))
         rep.add("accessor/fill_diag", "self(i,i) = elem for i in 0..min(rows, cols)", ok, fn["body"], det, where=loc(fn["body"]))
+    # fill_band / fill_tridiag
+    fn = _need(rep, pdb, "%s::fill_band" % M, "accessor/fill_band", "fill_band(offset, e): self(row, row+offset) = e for every row in 0..rows whose column row+offset lies in 0..cols")
+    if fn is not None:
+        ctx = Ctx.for_fn(pdb, fn)
+        effs = [e for e in effects(pdb, ctx) if e.kind == "set" and e.loops]
+        ok, det = len(effs) == 1, ""
+        if ok:
+            e = effs[0]
+            ranges = loop_var_ranges(ctx, e.loops)
+            tgt = elem_ref(pdb, ctx, strip(e.node["l"]))
+            row = tgt[1] if tgt else None
+            colt = lin_add(row, P(1)) if row is not None else None
+            from .guards import norm_cmp
+            fs = set(f for f in facts(ctx, e.node) if f[0] == "cmp")
+            need = {norm_cmp("<", colt, COLS), norm_cmp("<=", num(0), colt)} if colt is not None else {1}
+            ok = tgt is not None and len(tgt) == 3 and tgt[0] == P(0) and tgt[2] == colt and e.value == P(2) and ranges.get(row, (None, None))[:2] == (num(0), ROWS) and need <= fs
+            det = "target (row, row+offset)=%s guarded by 0 <= row+offset < cols=%s" % (tgt is not None and tgt[2] == colt, need <= fs)
+        rep.add("accessor/fill_band", "fill_band(offset, e): self(row, row+offset) = e for every row in 0..rows whose column row+offset lies in 0..cols", ok, fn["body"], det, where=loc(fn["body"]))
+    fn = _need(rep, pdb, "%s::fill_tridiag" % M, "accessor/fill_tridiag", "fill_tridiag(l, d, u) = fill_band(-1, l); fill_diag(d); fill_band(1, u)")
+    if fn is not None:
+        ctx = Ctx.for_fn(pdb, fn)
+        calls = [ctx.term(n) for n in walk(fn["body"]) if n.get("k") == "MethodCall" and n.get("fn_local")]
+        want = {("call", "%s::fill_band" % M, P(0), num(-1), P(1)), ("call", "%s::fill_diag" % M, P(0), P(2)), ("call", "%s::fill_band" % M, P(0), num(1), P(3))}
+        rep.add("accessor/fill_tridiag", "fill_tridiag(l, d, u) = fill_band(-1, l); fill_diag(d); fill_band(1, u)", set(calls) == want and len(calls) == 3, fn["body"], "", where=loc(fn["body"]))
     # eye
     fn = _need(rep, pdb, "%s::eye" % M, "shape/eye", "eye(n) is n x n zeros with one on (i,i) for i in 0..n")
     if fn is not None:
@@ -541,7 +565,7 @@ def run(rep, pdb, tier):
     rep.floor("elementwise-polarity/", 12)
     rep.floor("elementwise-coindex/", 12)
     rep.floor("elementwise-fullrange/", 12)
-    rep.floor("accessor/", 8)
+    rep.floor("accessor/", 10)
     rep.floor("norm-orientation/", 4)
     rep.floor("product/", 2)
     rep.floor("edit/", 5)
